@@ -65,7 +65,9 @@ SortExec(orders, cds, j, acc) ==
 \* declared exits: absolute prices (set in go_long/go_short) or, when rel, a distance d from the price the strategy sees in
 \* on_open_position (self.stop_loss = qty, self.price -/+ d)
 NoEx == [sl |-> 0, tp |-> 0, rel |-> FALSE, d |-> 0]
-Side0 == [pos |-> 0, entry |-> 0, cur |-> 0, bal |-> 0, ords |-> <<>>, nid |-> 1, ex |-> NoEx, log |-> <<>>, err |-> "none"]
+\* gap (ghost, fast side only): an order was filled in a minute inside a chunk whose raw open differs from the previous close -
+\* the situation in which the unrepaired fast loop works on a candle with another open than the normal simulator
+Side0 == [pos |-> 0, entry |-> 0, cur |-> 0, bal |-> 0, ords |-> <<>>, nid |-> 1, ex |-> NoEx, log |-> <<>>, err |-> "none", gap |-> FALSE]
 Ord(id_, side_, typ_, p_, role_) == [id |-> id_, side |-> side_, typ |-> typ_, p |-> p_, role |-> role_]
 ById(s, oid) == LET m == SelectSeq(s.ords, LAMBDA x : x.id = oid) IN m[1]
 IsActive(s, oid) == \E j \in DOMAIN s.ords : s.ords[j].id = oid
@@ -117,30 +119,31 @@ MinL(cs) == IF Len(cs) = 1 THEN cs[1].l ELSE Min2(cs[1].l, MinL(Tail(cs)))
 Agg(cs)  == Cd(cs[1].o, cs[Len(cs)].c, MaxH(cs), MinL(cs))
 Ext(cs, k) == IF k = 1 THEN cs[1]
               ELSE Cd(cs[k].o, cs[k].c, Max2(cs[k].h, cs[k - 1].c), Min2(cs[k].l, cs[k - 1].c))
-InnerGap(cs, k) == k > 1 /\ cs[k].o # cs[k - 1].c
+InnerGap(raw, k) == k > 1 /\ raw[k].o # raw[k - 1].c
 Ids(os) == [j \in 1..Len(os) |-> os[j].id]
 \* index of the first candidate that is still active and inside the (rest of the) minute; 0 if none
 FirstHit(s, ids, temp) ==
   LET hit == {j \in 1..Len(ids) : IsActive(s, ids[j]) /\ Includes(temp, ById(s, ids[j]).p)}
   IN IF hit = {} THEN 0 ELSE CHOOSE j \in hit : \A m \in hit : j <= m
-RECURSIVE LoopF(_, _, _, _, _)
-LoopF(s, ids, temp, minute, real) ==
+RECURSIVE LoopF(_, _, _, _, _, _)
+LoopF(s, ids, temp, minute, real, ig) ==
   LET j == FirstHit(s, ids, temp) IN
   IF j = 0 \/ s.err # "none" THEN [s |-> s, ids |-> ids]
   ELSE LET o  == ById(s, ids[j])
            sp == Split(temp, o.p)
-           s2 == Exec(s, o.id, minute, sp[1].c)
-       IN LoopF(s2, Ids(SelectSeq(s2.ords, LAMBDA x : Includes(real, x.p))), sp[2], minute, real)   \* not re-sorted
-RECURSIVE MinutesF(_, _, _, _, _, _)
-MinutesF(s, ids, cs, k, base, real) ==
+           s1 == Exec(s, o.id, minute, sp[1].c)
+           s2 == [s1 EXCEPT !.gap = @ \/ ig]
+       IN LoopF(s2, Ids(SelectSeq(s2.ords, LAMBDA x : Includes(real, x.p))), sp[2], minute, real, ig)   \* not re-sorted
+RECURSIVE MinutesF(_, _, _, _, _, _, _)
+MinutesF(s, ids, cs, k, base, real, raw) ==
   IF k > Len(cs) THEN s
-  ELSE LET r == LoopF(s, ids, Ext(cs, k), base + k, real) IN MinutesF(r.s, r.ids, cs, k + 1, base, real)
+  ELSE LET r == LoopF(s, ids, Ext(cs, k), base + k, real, InnerGap(raw, k)) IN MinutesF(r.s, r.ids, cs, k + 1, base, real, raw)
 ChunkF(s, raw, pc, base) ==
   LET cs   == [k \in 1..Len(raw) |-> IF k = 1 THEN FixJump(pc, raw[1]) ELSE IF InnerFix THEN FixJump(raw[k - 1].c, raw[k]) ELSE raw[k]]
       real == Agg(cs)
       ex0  == SelectSeq(s.ords, LAMBDA x : Includes(real, x.p))
       ex   == IF Len(ex0) > 1 THEN SortExec(ex0, cs, 1, <<>>) ELSE ex0
-      s2   == IF ex0 = <<>> THEN s ELSE MinutesF(s, Ids(ex), cs, 1, base, real)
+      s2   == IF ex0 = <<>> THEN s ELSE MinutesF(s, Ids(ex), cs, 1, base, real, raw)
   IN [s2 EXCEPT !.cur = raw[Len(raw)].c]
 
 \* ---- the strategy step at a trading-candle boundary (Strategy._check + _execute_market_orders) ----
